@@ -15,7 +15,7 @@ use crate::{
     },
     infrastructure::{
         domain::DomainId,
-        error::DdsResult,
+        error::{DdsError, DdsResult},
         instance::InstanceHandle,
         qos::{DomainParticipantFactoryQos, DomainParticipantQos, QosKind},
         status::StatusKind,
@@ -78,7 +78,7 @@ impl<T: TransportParticipantFactory> DomainParticipantFactoryAsync<T> {
         mask: &[StatusKind],
     ) -> DdsResult<DomainParticipantAsync> {
         let configuration = self.configuration.lock().await;
-        let guid_prefix = self.create_new_guid_prefix();
+        let guid_prefix = self.create_new_guid_prefix()?;
         let participant_handle = InstanceHandle::from(Guid::new(guid_prefix, ENTITYID_PARTICIPANT));
         let transport_participant = self.transport.lock().await.create_participant(
             domain_id,
@@ -369,13 +369,19 @@ impl<T: TransportParticipantFactory> DomainParticipantFactoryAsync<T> {
         }
     }
 
-    fn create_new_guid_prefix(&self) -> GuidPrefix {
+    fn create_new_guid_prefix(&self) -> DdsResult<GuidPrefix> {
+        // checked: a wrapped counter would give a new participant the GUID prefix of a live one
         let instance_id = self
             .entity_counter
-            .fetch_add(1, core::sync::atomic::Ordering::Relaxed)
+            .fetch_update(
+                core::sync::atomic::Ordering::Relaxed,
+                core::sync::atomic::Ordering::Relaxed,
+                |v| v.checked_add(1),
+            )
+            .map_err(|_| DdsError::OutOfResources)?
             .to_ne_bytes();
 
-        [
+        Ok([
             self.host_id[0],
             self.host_id[1],
             self.host_id[2],
@@ -388,7 +394,7 @@ impl<T: TransportParticipantFactory> DomainParticipantFactoryAsync<T> {
             instance_id[1],
             instance_id[2],
             instance_id[3], // Instance ID
-        ]
+        ])
     }
 
     #[doc(hidden)]
